@@ -7,7 +7,9 @@ event with model/Tuner.v ``run`` evaluated by vm_compute on the same script (chk
 The independent Python checker ``tuner_cases.check_c01`` (budget, ids, life-cycle automaton, notifications)
 runs on every implementation trace; driver (b) runs it on traces produced with REAL schedulers; stream (c)
 (harness/tuner_sim.py) runs the real SimulatorBackend + SimulatorCallback with a scripted job runner and judges
-the trace with the same checker plus ground truth about when every scripted job ended."""
+the trace with the same checker plus ground truth about when every scripted job ended; stream (e)
+(harness/tuner_bbsim.py) runs the real blackbox simulator backend (UserBlackboxBackend) with real schedulers and
+non-default simulator delays and compares the backend's status of every trial with what the scheduler was told."""
 import tuner_cases as tc
 
 
@@ -26,6 +28,9 @@ def run(ctx, replay=None):
         elif replay.get("kind") == "sim":
             import tuner_sim
             tuner_sim.run_sim(ctx, [replay])
+        elif replay.get("kind") == "bbsim":
+            import tuner_bbsim
+            tuner_bbsim.run_bbsim(ctx, [replay])
         else:
             tc.scripted_runs(ctx, [replay], tc.check_c01, "C01")
         return
@@ -37,6 +42,10 @@ def run(ctx, replay=None):
     # stream (c): the real SimulatorBackend with scripted jobs (jobs ending before their first report, ...)
     import tuner_sim
     tuner_sim.run_sim(ctx, None)
+    # stream (e): the real blackbox simulator backend (UserBlackboxBackend over a small table) with real schedulers,
+    # promotion Hyperband with max_resource_attr, all five simulator delays drawn from {0, 0.05, 0.5, 3.0}
+    import tuner_bbsim
+    tuner_bbsim.run_bbsim(ctx, None)
 
 
 def real_scheduler_runs(ctx, replay_cases):
